@@ -42,7 +42,7 @@ def row_fen(row, hmc):
     return f"{s} {'w' if row['wtm'] else 'b'} - - {hmc} {60 + hmc // 2}"
 
 
-def search(bdir, row, hmcs, net, threads, hashmb):
+def search(bdir, row, hmcs, net, threads, hashmb, prelude=()):
     """One engine process; the root position is searched once per half-move clock value in hmcs, in that order, without clearing the
     hash table in between (what a GUI does along a game).  Returns a list of (event | None, status, fen)."""
     eng = uci.Engine(os.path.join(bdir, "texel-" + net))
@@ -54,6 +54,17 @@ def search(bdir, row, hmcs, net, threads, hashmb):
         _, ok = eng.isready(60)
         if not ok:
             return [(None, "no-readyok", row_fen(row, hmcs[0]))]
+        # earlier analysis of endings of OTHER material classes in the same process: the table left resident by it must not answer for
+        # the root searched afterwards
+        for pfen in prelude:
+            eng.send(f"position fen {pfen}")
+            eng.send("go infinite")
+            eng.read_until(lambda l: l.startswith("info depth") and " pv " in l, 30)
+            time.sleep(0.3)
+            eng.send("stop")
+            _, ok = eng.read_until(lambda l: l.startswith("bestmove"), 180)
+            if not ok:
+                return [(None, "no-bestmove", pfen)]
         for hmc in hmcs:
             fen = row_fen(row, hmc)
             eng.send(f"position fen {fen}")
@@ -84,8 +95,15 @@ def search(bdir, row, hmcs, net, threads, hashmb):
                 if deep4 and (not series or time.time() - t_first > 1.5):
                     deep = True
                 if not lines and time.time() - t_last >= 2.0:
-                    # search may have ended by itself (mate found): nothing more will come
-                    if any(" pv " in x for x in lines_all):
+                    # search may have ended by itself (mate found): nothing more will come.  Only believed when the last exact line is a
+                    # mate score or deep enough; a silent engine after shallow lines is a starved engine on a loaded machine (seen once:
+                    # a depth-2 'cp' line taken as the final report), so the wait goes on until t_end
+                    lastx = None
+                    for x in lines_all:
+                        dx = uci.parse_info(x, row["wtm"])
+                        if dx and dx["bound"] == "":
+                            lastx = dx
+                    if lastx and (lastx["kind"] == "mate" or lastx["depth"] >= 4):
                         break
             eng.send("stop")
             lines, ok = eng.read_until(lambda l: l.startswith("bestmove"), 180)
@@ -101,9 +119,12 @@ def search(bdir, row, hmcs, net, threads, hashmb):
             if last is None:
                 out.append((None, "no-exact-line", fen))
                 continue
+            if last["kind"] != "mate" and last["depth"] < 4:
+                out.append((None, "skipped-shallow", fen))       # the engine never got to a depth at which the table decides the score
+                continue
             out.append(({"e": "TbSearch", "row": row, "hmc": hmc, "kind": last["kind"], "val": last["val"], "bound": last["bound"],
                          "best": uci.uci_to_mv(best, row["wtm"]), "line": last["line"] if "line" in last else " ".join(map(str, last["pv"][:3])),
-                         "fen": fen, "net": net, "threads": threads, "series": len(hmcs), "nth": len(out) + 1}, "ok", fen))
+                         "fen": fen, "net": net, "threads": threads, "series": len(hmcs), "nth": len(out) + 1, "depth": last["depth"], "prelude": list(prelude), "hash": hashmb}, "ok", fen))
         eng.quit()
         return out
     finally:
@@ -158,17 +179,28 @@ def run(tier, seed):
                 hmcs = [h1, h2] if h1 < h2 else [hmc]
                 if len(hmcs) == 2 and rnd.random() < 0.3:
                     hmcs.append(min(99, h2 + rnd.randint(1, 9)))
-            jobs.append((c, meta, r, hmcs, rnd.choice(sessions.NETS), rnd.choice([1, 1, 2, 4]), rnd.choice([8, 16, 64])))
-    results = vlib.pmap(lambda j: search(bdir, j[2], j[3], j[4], j[5], j[6]), jobs, workers=10)
+            prelude = []
+            if rnd.random() < 0.4:
+                for _ in range(rnd.choice([1, 1, 2])):
+                    oc, _, orows = rnd.choice([t for t in tabs if t[0] != c] or tabs)
+                    cand = [x for x in orows if x.get("succ")]
+                    if cand:
+                        prelude.append(row_fen(rnd.choice(cand), rnd.choice([0, 10])))
+            jobs.append((c, meta, r, hmcs, rnd.choice(sessions.NETS), rnd.choice([1, 1, 2, 4]), rnd.choice([8, 16, 64]), tuple(prelude)))
+    results = vlib.pmap(lambda j: search(bdir, j[2], j[3], j[4], j[5], j[6], j[7]), jobs, workers=10)
     files = {}
     n_ok = 0
     nsearch = 0
+    nshallow = 0
     cats = {"won": 0, "lost": 0, "draw": 0, "beyond50": 0}
     allfens = set()
-    for (c, meta, r, hmcs, net, thr, hm), res in zip(jobs, results):
+    for (c, meta, r, hmcs, net, thr, hm, prel), res in zip(jobs, results):
         for ev, status, fen in res:
             nsearch += 1
             allfens.add(fen)
+            if status == "skipped-shallow":
+                nshallow += 1
+                continue
             if status != "ok":
                 rep.violation(f"session:{status}:{fen}", f"engine session ended with {status} on {fen} (net {net}, threads {thr}, hash {hm})")
                 continue
@@ -185,7 +217,8 @@ def run(tier, seed):
         open(p, "w").write("\n".join(lines) + "\n")
         paths.append(p)
     vlib.linear_check(rep, SPEC, CFG, DIAG, paths, wd)
-    rep.cov.update({"roots": len(jobs), "searches": nsearch, "series_of_searches_in_one_process": sum(1 for j in jobs if len(j[3]) > 1), "classes": classes, "root_values": cats})
+    rep.cov.update({"roots": len(jobs), "searches": nsearch, "series_of_searches_in_one_process": sum(1 for j in jobs if len(j[3]) > 1),
+                    "roots_searched_after_an_ending_of_another_class": sum(1 for j in jobs if j[7]), "classes": classes, "root_values": cats, "searches_skipped_as_too_shallow": nshallow})
     rep.cov["evaluations"] = nsearch
     rep.cov["distinct_nontrivial"] = len(allfens)
     rep.cov["rule"] = "random legal placements of the listed classes x hmc 0..99 x nets x Threads 1..4 x Hash 8..64; distinct FENs counted; all non-trivial (table built + searched)"
